@@ -36,6 +36,11 @@ E_FLOORS = [
 ]
 
 
+# kind N: boundary values of the directed part (all 81 (lo, hi) pairs), number of N cases of a quick run
+N_BOUNDARY = [0, 1, 1022, 1023, 1024, 1025, 49152, 65534, 65535]
+N_CASES_QUICK = 81 + 9 * 4 * 3 + 2000
+
+
 def _vstat(v, key):
     m = re.search(r" %s=(\d+)" % key, v or "")
     return int(m.group(1)) if m else 0
@@ -66,6 +71,15 @@ def _post(lines, verdicts):
         for k in "SIDPR":
             if kinds.get(k, 0) < len(lines) // 100:
                 out.append(("diff", f"{k} (floor)", f"diff coverage-floor kind {k}: {kinds.get(k, 0)} cases < 1% of {len(lines)}"))
+        # kind N (ShardAwarePortRange::new): a FIXED number of cases per run (189 directed + 2 000 seeded, thorough 20 000),
+        # generated from an own stream - a deterministic count, so the floor is the count itself; every (lo, hi) pair of the
+        # boundary values must be among them and have been answered by the constructor
+        if kinds.get("N", 0) < N_CASES_QUICK:
+            out.append(("diff", "N (floor)", f"diff coverage-floor kind N: {kinds.get('N', 0)} constructor cases < {N_CASES_QUICK}"))
+        seen = {ln.split("|")[0].strip() for ln in lines if ln.startswith("N ") and ln.split("|")[-1].strip() in ("ok", "rejected")}
+        missing = [f"N {lo:x} {hi:x}" for lo in N_BOUNDARY for hi in N_BOUNDARY if f"N {lo:x} {hi:x}" not in seen]
+        if missing:
+            out.append(("diff", "N (floor)", f"diff coverage-floor kind N: {len(missing)} of 81 boundary pairs not answered, first {missing[0]}"))
         if kinds.get("E", 0) < 100:
             out.append(("diff", "E (floor)", f"diff coverage-floor kind E: {kinds.get('E', 0)} end-to-end scenarios < 100"))
     e = [ln for ln in lines if ln.startswith("E ")]
@@ -141,12 +155,17 @@ SPEC = {
     "bin": "c11",
     "sizes": {"quick": 300000, "thorough": 12000000},
     "search_n": 2000000,
-    # quick: 27 458 exhaustive + 300 000 random + 120 E; a run that lost its end-to-end part is below the floor
-    "min_cases": {"quick": 327500, "thorough": 11000000},
+    # quick: 27 458 exhaustive + 2 189 N + 300 000 random + 120 E; a run that lost its end-to-end part is below the floor
+    "min_cases": {"quick": 329700, "thorough": 11000000},
     "rule": ("exhaustive part: I/D for n<=12 (thorough 40) x every shard x 4 boundary ranges; S for every n<=64 x every msb 0..63 x "
              "fixed boundary tokens + first/last token of every shard (msb 0) / 4 directed near-boundary tokens (msb > 0; in the quick tier only "
              "for msb = 4 mod 8); directed ShardInfo "
-             "boundary (shard = nr-1, nr, nr+1; nr = 0). Seeded random part: S=shard_of(n,msb,token) with 3/8 of the tokens within "
+             "boundary (shard = nr-1, nr, nr+1; nr = 0). N lo hi = the real ShardAwarePortRange::new(lo..=hi), ok / rejected: every (lo, hi) pair of "
+             "0, 1, 1022, 1023, 1024, 1025, 49152, 65534, 65535; lo = hi, hi = lo-1, hi = lo+1 at and just above each of them; 2 000 (thorough "
+             "20 000) pairs from an own seeded stream (any order / lo = hi / hi = lo-1 / lo in 1000..1050 / ordered), a fixed count per run; "
+             "verdict: impl accepts <=> extracted port_range_new accepts (C11_range_new_iff), viol when an allowed range 1024 <= lo <= hi is "
+             "refused or an empty / reserved one accepted; an I / D case whose allowed range the constructor refuses prints rejected and is a "
+             "viol when spec_ports is non-empty. Seeded random part: S=shard_of(n,msb,token) with 3/8 of the tokens within "
              "+-2 of a shard boundary of the case's own sharder (both sides), I=port iterator, D=drawn port, P=shard_of_source_port, "
              "R=ShardInfo parsing. End-to-end part: E = one seeded scenario (120 quick / 1200 thorough) of a real Session against "
              "mocknode: 1-2 nodes x 2-6 shards, PoolSize::PerShard(1-2), shard_aware_local_port_range(lo..=hi) of 1..4*nr_shards-1 ports "
